@@ -28,13 +28,13 @@ class Peer:
         ctx.verify_mode = ssl.CERT_NONE
         raw = socket.create_connection(("127.0.0.1", port), timeout=5)
         self.s = ctx.wrap_socket(raw, server_hostname="localhost")
-        self.s.settimeout(5)
+        self.s.settimeout(10)
         self.buf = b""
 
     def send(self, data):
         self.s.sendall(data)
 
-    def line(self, timeout=5):
+    def line(self, timeout=10):
         """next header line (payloads are skipped by their announced length); None on timeout / close"""
         self.s.settimeout(timeout)
         try:
@@ -57,7 +57,7 @@ class Peer:
             self.buf = self.buf[n + 1:]
         return l
 
-    def reply(self, rid, timeout=5):
+    def reply(self, rid, timeout=10):
         """the frame answering request rid (EVENT / MESSAGE frames in between are skipped)"""
         end = time.time() + timeout
         while time.time() < end:
@@ -107,7 +107,7 @@ def probe(r):
     peers = []
     try:
         up = False
-        for _ in range(100):
+        for _ in range(400):      # up to 40 s: the machine may be busy
             if proc.poll() is not None:
                 break
             try:
@@ -136,7 +136,7 @@ def probe(r):
                 break
             extra.append(p)
             p.send(sl.frame("CONNECT", [("version", 1), ("heartbeat_interval", 0)]))
-            l = p.line(3)
+            l = p.line(10)
             if l is None or b"SERVER_OVERLOADED" in l:
                 refused = i
                 break
@@ -201,7 +201,7 @@ def probe(r):
         for p in watch:
             got = None
             for _ in range(40):
-                l = p.line(6)
+                l = p.line(15)
                 if l is None:
                     break
                 if l.startswith(b"ERROR"):
